@@ -370,6 +370,258 @@ def sym_combos(ctx):
     return out
 
 
+# --------------------------------------------------------------------------- real processes (true parallelism)
+def V2(i):
+    return (b"%02x" % i) * 20 if i > 0 else None
+
+
+def v2_index(b):
+    if b is None or b == b"0" * 40:
+        return 0
+    return int(b[:2], 16)
+
+
+def _mp_ref_job(a, barrier, root, script, seed, init_val):
+    """worker process: a script of ref operations on refs/heads/m of the shared directory `root`"""
+    import random
+    import time
+    from dulwich.refs import DiskRefsContainer
+    from .. import mp
+    rng = random.Random(seed)
+    c = DiskRefsContainer(root)
+    Z = b"0" * 40
+    last = init_val
+    recs = []
+    barrier.wait(60)
+    for (op, newv) in script:
+        mp.spin(rng)
+        if op == "rm" and last == 0:
+            op = "read"
+        rec = {"k": "", "n": 1, "via": 0, "old": 0, "new": 0, "res": 0, "exc": False, "a": a, "name": op}
+        if op == "cas":
+            old = last
+            rec.update(k="set_if_equals", old=old, new=newv)
+            call = lambda: c.set_if_equals(M, V2(old) or Z, V2(newv))
+        elif op == "add":
+            rec.update(k="add_if_new", new=newv)
+            call = lambda: c.add_if_new(M, V2(newv))
+        elif op == "rm":
+            old = last
+            rec.update(k="remove_if_equals", old=old)
+            call = lambda: c.remove_if_equals(M, V2(old))
+        elif op == "set":
+            rec.update(k="set_if_equals", old=-1, new=newv)
+
+            def call():
+                c[M] = V2(newv)
+                return True
+        elif op == "del":
+            rec.update(k="remove_if_equals", old=-1)
+
+            def call():
+                del c[M]
+                return True
+        elif op == "read":
+            rec.update(k="read")
+
+            def call():
+                try:
+                    return v2_index(c[M])
+                except KeyError:
+                    return 0
+        elif op == "pack":
+            rec.update(k="pack_refs")
+
+            def call():
+                c.pack_refs(all=True)
+                return 1
+        else:
+            raise ValueError(op)
+        rec["c"] = time.monotonic_ns()
+        try:
+            r = call()
+            rec["res"] = int(r) if r is not None else 1
+        except Exception as e:      # a legitimate loser (FileLocked ...): must have had no effect
+            rec["exc"] = True
+            rec["excname"] = type(e).__name__
+        rec["r"] = time.monotonic_ns()
+        if not rec["exc"]:
+            if op == "read":
+                last = rec["res"]
+            elif op in ("cas", "add", "set") and rec["res"]:
+                last = newv
+            elif op in ("rm", "del") and rec["res"]:
+                last = 0
+        recs.append(rec)
+    return recs
+
+
+def _mp_commit_job(a, barrier, root, k, seed, tree_id):
+    """worker process: k commits on the current branch of the shared repository"""
+    import random
+    import time
+    from dulwich.repo import Repo
+    from .. import mp
+    rng = random.Random(seed)
+    r = Repo(root)
+    out = []
+    barrier.wait(60)
+    try:
+        for i in range(k):
+            mp.spin(rng)
+            rec = {"a": a, "ok": False, "sha": None, "parent": None, "excname": None}
+            rec["c"] = time.monotonic_ns()
+            try:
+                sha = r.get_worktree().commit(message=b"by %d/%d" % (a, i), committer=b"a <a@b>", author=b"a <a@b>",
+                                              commit_timestamp=100 + i, commit_timezone=0, author_timestamp=100 + i,
+                                              author_timezone=0, tree=tree_id)
+                ps = r.object_store[sha].parents
+                rec.update(ok=True, sha=sha, parent=ps[0] if ps else None)
+            except Exception as e:
+                rec["excname"] = type(e).__name__
+            rec["r"] = time.monotonic_ns()
+            out.append(rec)
+    finally:
+        r.close()
+    return out
+
+
+def mp_part(ctx, traces, meta, tid):
+    """2-3 real processes hammer one ref / one branch; every round's history goes to RefsLin."""
+    from .. import mp
+    import random
+    nproc = 3
+    pool = mp.Pool(nproc, {"ref": _mp_ref_job, "commit": _mp_commit_job})
+    rng = random.Random(ctx.seed * 7919 + 13)
+    nref = ncom = 0
+    overlap = 0
+    try:
+        menu = ["cas", "cas", "cas", "add", "rm", "set", "del", "read", "read", "pack"]
+        for rd in range(ctx.pick(160, 2500)):
+            layout = LAYOUTS[rd % len(LAYOUTS)]
+            root = ctx.tmpdir("c08p")
+            cur0 = make_layout(root, layout)
+            # make_layout writes one-digit values; rewrite the starting value in the two-digit alphabet
+            from dulwich.refs import DiskRefsContainer
+            c0 = DiskRefsContainer(root)
+            if cur0:
+                c0[M] = V2(cur0)
+                if layout in ("packed", "both"):
+                    c0.pack_refs(all=True)
+                if layout == "both":
+                    cur0 = 9
+                    c0[M] = V2(cur0)
+            nact = 2 if rd % 3 == 0 else 3
+            nxt = 10
+            args = []
+            for a in range(nproc):
+                script = []
+                for _ in range(ctx.pick(4, 5) if a < nact else 0):
+                    op = rng.choice(menu)
+                    nxt += 1
+                    script.append((op, nxt))
+                args.append((root, script, rng.getrandbits(30), cur0))
+            res = pool.round("ref", args)
+            ops = [r for rs in res for r in rs]
+            mp.rank_times(ops)
+            ops.sort(key=lambda o: o["c"])
+            cf = DiskRefsContainer(root)
+            try:
+                final = v2_index(cf[M])
+            except KeyError:
+                final = 0
+            locks = [f for dp, dn, fn in os.walk(root) for f in fn if f.endswith(".lock")]
+            shutil.rmtree(root, ignore_errors=True)
+            tid += 1
+            nref += 1
+            t = {"tid": tid, "init": [cur0], "final": [final], "hinit": 1, "hfinal": 1,
+                 "ops": [{k: o[k] for k in ("k", "n", "via", "old", "new", "res", "exc", "c", "r")} for o in ops],
+                 "commits": [], "tip": 0}
+            traces.append(t)
+            names = "+".join(sorted({o["name"] for o in ops}))
+            meta[tid] = {"sig": f"dulwich/refs.py:DiskRefsContainer|NotLinearizable|processes={nact} init={layout} ops={names}",
+                         "desc": f"{nact} real processes, init={layout}({cur0}): "
+                                 f"{[(o['a'], o['name'], o['old'], o['new'], o['res'], o.get('excname'), o['c'], o['r']) for o in ops]} final={final}",
+                         "processes": nact, "mp_layout": layout}
+            ctx.count()
+            if any(o1["a"] != o2["a"] and o1["c"] < o2["r"] and o2["c"] < o1["r"] for i, o1 in enumerate(ops) for o2 in ops[i + 1:]):
+                overlap += 1
+                ctx.nontrivial(("mpref", rd))
+            if locks:
+                ctx.violation(f"dulwich/refs.py:DiskRefsContainer|LockLeftBehind|processes={nact} init={layout}",
+                              f"lock files left after all processes returned: {locks}", {"meta": meta[tid], "trace": t})
+        # commits on one branch
+        from dulwich.objects import Tree
+        from dulwich.repo import Repo
+        for rd in range(ctx.pick(40, 500)):
+            root = ctx.tmpdir("c08pc")
+            r = Repo.init(root)
+            tr = Tree()
+            r.object_store.add_object(tr)
+            c0 = r.get_worktree().commit(message=b"c0", committer=b"a <a@b>", author=b"a <a@b>", commit_timestamp=1, commit_timezone=0,
+                                         author_timestamp=1, author_timezone=0, tree=tr.id)
+            if rd % 2:
+                r.refs.pack_refs(all=True)
+            r.close()
+            res = pool.round("commit", [(root, 3, rng.getrandbits(30), tr.id) for _ in range(nproc)])
+            recs = [x for rs in res for x in rs]
+            mp.rank_times(recs)
+            recs.sort(key=lambda o: o["c"])
+            idx = {c0: 1}
+
+            def cid(sha):
+                if sha not in idx:
+                    idx[sha] = len(idx) + 1
+                return idx[sha]
+            r = Repo(root)
+            tip = r.refs[b"HEAD"]
+            seen, todo = set(), [tip]
+            while todo:
+                x = todo.pop()
+                if x not in seen:
+                    seen.add(x)
+                    todo += r.object_store[x].parents
+            commits = [{"id": 1, "parent": 0, "ok": True}]
+            # the ancestry is projected from the real objects: every commit in the final history, plus the reported ones
+            for x in seen:
+                if x != c0:
+                    ps = r.object_store[x].parents
+                    commits.append({"id": cid(x), "parent": cid(ps[0]) if ps else 0, "ok": False})
+            ops = []
+            for o in recs:
+                if o["ok"]:
+                    i_ = cid(o["sha"])
+                    ent = next((c for c in commits if c["id"] == i_), None)
+                    if ent is None:
+                        commits.append({"id": i_, "parent": cid(o["parent"]) if o["parent"] else 0, "ok": True})
+                    else:
+                        ent["ok"] = True
+                    ops.append({"k": "set_if_equals", "n": 1, "via": 0, "old": cid(o["parent"]) if o["parent"] else 0, "new": i_, "res": 1,
+                                "exc": False, "c": o["c"], "r": o["r"]})
+                else:
+                    ops.append({"k": "set_if_equals", "n": 1, "via": 0, "old": 0, "new": 0, "res": 0, "exc": True, "c": o["c"], "r": o["r"]})
+            r.close()
+            shutil.rmtree(root, ignore_errors=True)
+            tid += 1
+            ncom += 1
+            t = {"tid": tid, "init": [1], "final": [cid(tip)], "hinit": 1, "hfinal": 1, "ops": ops, "commits": commits, "tip": cid(tip)}
+            traces.append(t)
+            nok = sum(1 for o in recs if o["ok"])
+            meta[tid] = {"sig": f"dulwich/worktree.py:WorkTree.commit|LostCommit|processes={nproc} packed={bool(rd % 2)}",
+                         "desc": f"{nproc} real processes x 3 commits: {nok} reported successful, {len(seen) - 1} in the final history; "
+                                 f"losers {[o['excname'] for o in recs if not o['ok']]}",
+                         "processes": nproc}
+            ctx.count()
+            ctx.nontrivial(("mpcommit", rd))
+    finally:
+        pool.close()
+    ctx.cov["real_process_rounds"] = {"ref_rounds": nref, "ref_rounds_with_overlapping_operations": overlap, "commit_rounds": ncom}
+    ctx.log(f"real processes: {nref} ref rounds ({overlap} with overlapping operations), {ncom} commit rounds")
+    if nref and overlap < nref // 10:
+        ctx.assumptions.append(f"real-process rounds: only {overlap}/{nref} rounds had overlapping operations")
+    return tid
+
+
 # --------------------------------------------------------------------------- commit scenario
 class CommitRun:
     """n actors commit on the same branch at once (WorkTree.commit on a disk repo, or
@@ -777,6 +1029,7 @@ def run(ctx):
             ctx.count()
             ctx.nontrivial(("commit", kind, n, packed, tuple((o["a"], o["res"], o["exc"], o["old"]) for o in r.ops), r.tip))
     ctx.log(f"commit histories: {ncommit} executions")
+    tid = mp_part(ctx, traces, meta, tid)
     ctx.sample({"kind": "commit-history", "trace": traces[-1], "meta": meta[traces[-1]["tid"]]["desc"]})
     n = judge(ctx, traces, meta)
     ctx.validated(n)
@@ -786,7 +1039,8 @@ def run(ctx):
                        "or commits from each initial layout {absent, loose, packed, both}; two branches and the symbolic ref HEAD re-pointed "
                        "concurrently with updates, reads and commits issued on HEAD (layouts loose, packed, mixed); distinct = distinct (layout, operations, "
                        "interval structure, results, final value); non-trivial = at least two operations overlap")
-    ctx.assumptions += ["actors are greenlets with private DiskRefsContainer/Repo objects; only the file system is shared",
+    ctx.assumptions += ["scheduled actors are greenlets with private DiskRefsContainer/Repo objects; only the file system is shared; "
+                        "the real-process rounds use forked processes and CLOCK_MONOTONIC intervals (wider than the operations)",
                         "an operation that raised (FileLocked, FileNotFoundError...) is a legitimate loser and must have no effect",
                         "multi-ref reads (as_dict) are judged per ref, not as an atomic snapshot",
                         "reflog content and worktree-specific refs are not modelled"]
